@@ -165,3 +165,28 @@ def place_near(recs, name, rng, anchor=None, dist_A=None, chain="L", resnum=900,
 
 
 ALL_LIGAND_TYPES = sorted({t for (_, _, e) in FRAGMENTS.values() for t in e.values()})
+
+
+def polyamine(n):
+    """Linear polyamine N-(C-C-N)_(n-1) in a planar zig-zag: n covalently coupled amine groups."""
+    atoms = []
+    x = 0.0
+    k = 0
+    expect = {}
+    names = []
+    for i in range(n):
+        names.append(("N%d" % (i + 1), "N"))
+        if i < n - 1:
+            names.append(("C%d" % (2 * i + 1), "C"))
+            names.append(("C%d" % (2 * i + 2), "C"))
+    for j, (nm, el) in enumerate(names):
+        atoms.append((nm, el, (1.25 * j, 0.42 if j % 2 else -0.42, 0.0)))
+    for i in range(n):
+        expect["N%d" % (i + 1)] = "N31" if i in (0, n - 1) else "N32"
+    return ("PAM", atoms, expect)
+
+
+FRAGMENTS["triamine"] = polyamine(3)
+FRAGMENTS["pentamine"] = polyamine(5)
+FRAGMENTS["hexamine"] = polyamine(6)
+ALL_LIGAND_TYPES = sorted({t for (_, _, e) in FRAGMENTS.values() for t in e.values()})
